@@ -256,9 +256,11 @@ def run_pure(spec, res):
     check_timeseries(res, spec, data, ts, 'timeseries_from_data')
     pts = path_timeseries_from_data(build_data(spec))
     check_path_timeseries(res, spec, data, pts, 'path_timeseries_from_data')
-    pts2 = path_timeseries_from_embedded_timeseries(
-        timeseries_from_data(build_data(spec)))
+    emb = timeseries_from_data(build_data(spec))
+    pts2 = path_timeseries_from_embedded_timeseries(emb)
     check_path_timeseries(res, spec, data, pts2, 'path_from_embedded')
+    # ... and the embedded timeseries that was converted is still intact
+    check_timeseries(res, spec, data, emb, 'embedded_after_conversion')
 
 
 def check_emitter(res, spec, data, em):
